@@ -117,6 +117,16 @@ def _slice_piece(p, lo, w):
             if t.name == 'sel':
                 return sel(t.ops[0], slice_(t.ops[1], lo2, w), slice_(t.ops[2], lo2, w))
             return op(t.name, w, *[slice_(o, lo2, w) for o in t.ops])
+        if t.kind == 'op' and t.name in ('sum', 'mul') and p[2] + lo + w < t.width and not _NARROWING[0]:
+            # bits [m, m+w) of a sum/product depend only on the low m+w bits of the operands (carries move upwards):
+            # narrow the term to m+w bits first, so that the same value computed at two widths has one normal form
+            _NARROWING[0] = True
+            try:
+                nar = canon((('s', t, 0, p[2] + lo + w),))
+            finally:
+                _NARROWING[0] = False
+            if not (len(nar) == 1 and nar[0][0] == 's' and nar[0][1] is t):
+                return slice_(nar, p[2] + lo, w)
         if t.kind == 'op' and t.name == 'sum' and p[2] + lo > 0 and len(t.ops) == 1 and t.attrs[1] == (1,) \
                 and t.attrs[0] & ((1 << (p[2] + lo)) - 1) == 0:
             # x + K where the low m bits of K are zero: no carry enters bit m, so bits [m, ..) of the sum are
@@ -132,7 +142,7 @@ def _slice_piece(p, lo, w):
                 if lo2 >= bl:
                     return (('c', w, 0),)
                 if lo2 + w > bl:
-                    return (('s', t, lo2, bl - lo2), ('c', lo2 + w - bl, 0))
+                    return tuple(_slice_piece(('s', t, 0, t.width), lo2, bl - lo2)) + (('c', lo2 + w - bl, 0),)
         return (('s', t, p[2] + lo, w),)
     if k == 'r':
         return (p[1],) if w == 1 else (('r', p[1], w),)
@@ -140,6 +150,7 @@ def _slice_piece(p, lo, w):
 
 
 BITWISE_CLOSED = ('not', 'and', 'or', 'xor', 'sel')
+_NARROWING = [False]
 
 
 def _max_unsigned(bv):
@@ -508,6 +519,28 @@ def fcmp(pred, a, b):
         return const(1, 0)
     if pred in _FSWAP:
         pred, a, b = _FSWAP[pred], b, a
+    if pred in ('ueq', 'ult', 'ule', 'une', 'uno'):
+        # an unordered predicate is true whenever an operand is NaN:  cmp(sel(c, NaN, y), k) = c | cmp(y, k)
+        for side in (0, 1):
+            x = (a, b)[side]
+            t = is_op(canon(x), 'sel')
+            if t is not None:
+                c_, p_, q_ = t.ops
+                for (nanarm, other, cond) in ((p_, q_, c_), (q_, p_, not_(c_))):
+                    if is_const(nanarm) and width(nanarm) in (32, 64) and _is_nan_const(nanarm):
+                        inner = fcmp(pred, other, b) if side == 0 else fcmp(pred, a, other)
+                        return or_(cond, inner)
+    if pred in ('oeq', 'olt', 'ole', 'one', 'ord'):
+        # an ordered predicate is false whenever an operand is NaN:  cmp(sel(c, NaN, y), k) = !c & cmp(y, k)
+        for side in (0, 1):
+            x = (a, b)[side]
+            t = is_op(canon(x), 'sel')
+            if t is not None:
+                c_, p_, q_ = t.ops
+                for (nanarm, other, cond) in ((p_, q_, not_(c_)), (q_, p_, c_)):
+                    if is_const(nanarm) and width(nanarm) in (32, 64) and _is_nan_const(nanarm):
+                        inner = fcmp(pred, other, b) if side == 0 else fcmp(pred, a, other)
+                        return and_(cond, inner)
     if pred in ('une', 'oeq', 'one', 'ueq'):
         # X compared with +-0.0 where every bit of X is 0 or one and the same bit b, and some non-sign bit is b:
         # X is (+-)0 iff b = 0, and for b = 1 X is non-zero or NaN.  une/one(NaN excluded only if exponent not all ones)
@@ -597,6 +630,10 @@ def _not_piece(p):
     if t.kind == 'op' and t.name == 'sel' and p[2] == 0 and w == t.width:
         # not(sel(c,x,y)) = sel(c, not x, not y)
         return sel(t.ops[0], not_(t.ops[1]), not_(t.ops[2]))
+    if t.kind == 'op' and t.width == 1 and t.name in ('and', 'or') and len(t.ops) == 2:
+        # De Morgan on 1-bit (mask) terms: negations are pushed to the comparison leaves, where the predicate is flipped
+        f = or_ if t.name == 'and' else and_
+        return f(not_(t.ops[0]), not_(t.ops[1]))
     return raw_op('not', w, (p,))
 
 
@@ -704,6 +741,27 @@ def _bitwise_seg(name, x, y):
         r = _bool_rules(name, x, y)
         if r is not None:
             return r
+    if name in ('and', 'or'):
+        # associativity / commutativity / idempotence: flatten nested terms of the same operator, sort, rebuild
+        leaves = []
+
+        def gather(p):
+            if p[0] == 's' and p[1].kind == 'op' and p[1].name == name and p[2] == 0 and p[3] == p[1].width == w \
+                    and all(len(o) == 1 for o in p[1].ops):
+                for o in p[1].ops:
+                    gather(o[0])
+            elif p not in leaves:
+                leaves.append(p)
+        gather(x)
+        gather(y)
+        if len(leaves) > 2:
+            leaves.sort(key=lambda q: _key((q,)))
+            acc = (leaves[0],)
+            for l in leaves[1:]:
+                acc = raw_op(name, w, acc, (l,))
+            return acc
+        if len(leaves) == 1:
+            return (leaves[0],)
     return raw_op(name, w, (x,), (y,))
 
 
